@@ -490,6 +490,10 @@ def register_numpy():
 
     @normalize_token.register(np.dtype)
     def normalize_dtype(dtype):
+        if dtype.kind == "V":
+            # ``str`` of a structured or sub-array dtype is only '|V<itemsize>':
+            # field names, field types and offsets would be lost
+            return "np.dtype", repr(dtype)
         return dtype.str
 
 
